@@ -81,11 +81,27 @@ func (g *valGen) gen(s *Shape, depth int, key bool) *Val {
 			for i := range b {
 				b[i] = byte(' ' + r.Intn(95))
 			}
+		case x == 7 && n > 0:
+			// UTF-8 boundary runes between ASCII, occasionally with an invalid fragment (must be rejected under validation)
+			var bb []byte
+			for len(bb) < n {
+				switch r.Intn(8) {
+				case 0:
+					bb = append(bb, 'a')
+				case 1:
+					if r.Intn(3) == 0 {
+						bb = append(bb, []string{"\x80", "\xc3", "\xe2\x82", "\xf0\x9f\x98", "\xc0\x80", "\xe0\x80\x80", "\xed\xa0\x80", "\xf4\x90\x80\x80", "\xff"}[r.Intn(9)]...)
+					}
+				default:
+					bb = utf8.AppendRune(bb, []rune{0, 0x7f, 0x80, 0x7ff, 0x800, 0xd7ff, 0xe000, 0xfffd, 0xfffe, 0xffff, 0x10000, 0x10ffff}[r.Intn(12)])
+				}
+			}
+			b = bb // the length may exceed n by up to 3 bytes; bounds are met or missed accordingly
 		default:
 			// multi-byte runes, cut to length on a rune boundary, padded with 'x'
 			var bb []byte
 			for len(bb) < n {
-				bb = utf8.AppendRune(bb, []rune{'é', 'ß', '€', '𝄞', 0, 'a', '\n', '"', '\\', 0x7f}[r.Intn(10)])
+				bb = utf8.AppendRune(bb, []rune{'é', 'ß', '€', '𝄞', 0, 'a', '\n', '"', '\\', 0x7f, 0xfffd}[r.Intn(11)])
 			}
 			for len(bb) > n {
 				_, sz := utf8.DecodeLastRune(bb)
